@@ -385,6 +385,51 @@ Theorem up_ihu_outlet_cell_valid_refuted :
 Proof. exact IhuValid.up_ihu_outlet_cell_valid_refuted. Qed.
 Print Assumptions up_ihu_outlet_cell_valid_refuted.
 
+(* ihu SUCCEEDS, and a scale factor of 1 reproduces the input.  The model's error flag (1 = a fuelled walk ran out, 2 = the
+   Python `assert idx != idx1` of ihu_optimize_rivlen failed) is never set on legal inputs: every walk of the stages ends
+   through its own exit test within its fuel, and the assert cannot fail (a rank on the coarse cells that decreases along
+   valid links, established by upscale_check and kept by every relinking).  So the two theorems above hold without the
+   no-error hypothesis; and with cs = 1 the iterative stages change nothing. *)
+From PF Require Import IhuNoMarker IhuScale1.
+Theorem up_ihu_no_marker : forall sds sq upa subnrow subncol cs ea, 0 < cs -> 0 < subncol -> length sds = subnrow * subncol ->
+  topo sds sq -> complete sds sq ->
+  (forall t, t < length sds -> sd sds t < length sds -> in_d8 t (sd sds t) subncol = true) ->
+  check_cross sds ea subncol cs = true ->
+  (forall t, t < length sds -> sd sds t < length sds -> (0 < nth t upa 0)%Z) ->
+  let '(cds, _, (nrow, ncol)) := up_ihu sds upa subnrow subncol cs ea in no_marker cds (nrow * ncol).
+Proof. exact IhuNoMarker.up_ihu_no_marker. Qed.
+Print Assumptions up_ihu_no_marker.
+Theorem up_ihu_valid_iff_outlet_total : forall sds sq upa subnrow subncol cs ea, 0 < cs -> 0 < subncol ->
+  length sds = subnrow * subncol -> topo sds sq -> complete sds sq ->
+  (forall t, t < length sds -> sd sds t < length sds -> in_d8 t (sd sds t) subncol = true) ->
+  check_cross sds ea subncol cs = true ->
+  (forall t, t < length sds -> sd sds t < length sds -> (0 < nth t upa 0)%Z) ->
+  let '(cds, out, (nrow, ncol)) := up_ihu sds upa subnrow subncol cs ea in
+  length cds = nrow * ncol /\ length out = nrow * ncol /\
+  (forall idx0, idx0 < nrow * ncol ->
+     (nth idx0 cds (nrow * ncol) = nrow * ncol <-> nth idx0 out (length sds) = length sds) /\
+     (nth idx0 cds (nrow * ncol) < nrow * ncol <-> nth idx0 out (length sds) < length sds)).
+Proof. exact IhuNoMarker.up_ihu_valid_iff_outlet_total. Qed.
+Print Assumptions up_ihu_valid_iff_outlet_total.
+Theorem up_ihu_scale1 : forall sds upa subnrow subncol ea, 0 < subncol -> length sds = subnrow * subncol ->
+  (forall t, t < length sds -> sd sds t < length sds -> sd sds (sd sds t) < length sds) ->
+  (forall t, t < length sds -> sd sds t <= length sds) ->
+  (forall t, t < length sds -> sd sds t < length sds -> (0 < nth t upa 0)%Z) ->
+  (forall t, t < length sds -> sd sds t < length sds -> eaf ea t = true) ->
+  (forall t, t < length sds -> sd sds t < length sds -> in_d8 t (sd sds t) subncol = true) ->
+  up_ihu sds upa subnrow subncol 1 ea = up_eam_plus sds upa subnrow subncol 1 ea.
+Proof. exact IhuScale1.up_ihu_scale1. Qed.
+Print Assumptions up_ihu_scale1.
+Theorem up_ihu_scale1_net : forall sds upa subnrow subncol ea, 0 < subncol -> length sds = subnrow * subncol ->
+  (forall t, t < length sds -> sd sds t < length sds -> sd sds (sd sds t) < length sds) ->
+  (forall t, t < length sds -> sd sds t <= length sds) ->
+  (forall t, t < length sds -> sd sds t < length sds -> (0 < nth t upa 0)%Z) ->
+  (forall t, t < length sds -> sd sds t < length sds -> eaf ea t = true) ->
+  (forall t, t < length sds -> sd sds t < length sds -> in_d8 t (sd sds t) subncol = true) ->
+  fst (fst (up_ihu sds upa subnrow subncol 1 ea)) = sds.
+Proof. exact IhuScale1.up_ihu_scale1_net. Qed.
+Print Assumptions up_ihu_scale1_net.
+
 (* TIE BY TRANSLATION: the non-iterative upscaling kernels of upscale.py regenerated from the source on every run
    (generated/GenUpscale.v, tools/gen_upscale.py: `while True ... break` loops become fuelled Fixpoints with the models' fuel and
    error values, the half-cell offsets of dmm_nextidx exact doubled integers, effective_area an abstract selector) ARE the
